@@ -120,7 +120,8 @@ def c06_property(case, impl):
         # (c) forced / idle: completes in the poll that picks it up, without waiting
         if head is not None and not panicked:
             graceful = stops[head][0]
-            if not graceful or not inprog_before:
+            # (a graceful stop with connections queued but none in progress may either count as idle or drain first)
+            if not graceful or (not inprog_before and not queued_before):
                 if not (head in acks and acks[head] is not None and done):
                     return "%s stop %d did not complete in the poll that picked it up" % ("graceful idle" if graceful else "forced", head)
         if head is not None and panicked:
